@@ -783,6 +783,34 @@ func genC17(c *Ctx) {
 	c17CommitCases(c, r)
 	// C17commit end
 
+	// ---- 2b. a share list that is NOT sorted by namespace: the lookup promises nothing about its answer then,
+	// but it is still a read: the caller's list must hold the same shares in the same places afterwards
+	for i := 0; i < 6; i++ {
+		nssU := blobNamespaces(r, 3)
+		var list []share.Share
+		for j := len(nssU) - 1; j >= 0; j-- {
+			g := genBlob{ns: nssU[j], data: r.Bytes(1 + r.Intn(1200))}
+			shs, err := g.blob().ToShares()
+			if err == nil {
+				list = append(list, shs...)
+			}
+		}
+		if len(list) < 2 {
+			continue
+		}
+		before := make([]string, len(list))
+		for j := range list {
+			before[j] = string(list[j].ToBytes())
+		}
+		for _, q := range nssU {
+			_ = share.GetShareRangeForNamespace(list, nsOf(q))
+		}
+		same := true
+		for j := range list {
+			same = same && before[j] == string(list[j].ToBytes())
+		}
+		c17Check(c, same, "share.GetShareRangeForNamespace", "reordered or modified the caller's (unsorted) share list", map[string]any{"shares": len(list)})
+	}
 	// ---- 3. concurrency: the race-instrumented sibling binary ----
 	c17RunRaceBinary(c, r.U64()%1000000)
 }
